@@ -7,6 +7,7 @@ import (
 
 	"go.pennock.tech/tabular"
 	"go.pennock.tech/tabular/length"
+	"go.pennock.tech/tabular/properties/align"
 	"go.pennock.tech/tabular/texttable"
 )
 
@@ -229,7 +230,7 @@ func runC18(x *X) {
 	})
 	maxLen := x.Pick(5, 7)
 	ascii := "ascii-simple"
-	x.Explore("strings", ExploreOpts{ShardDepth: 3, Bound: fmt.Sprintf("all strings of <=%d atoms over %d atoms", maxLen, len(c18Atoms))}, func(c *Chooser) {
+	x.Explore("strings", ExploreOpts{ShardDepth: 3, Bound: fmt.Sprintf("all strings of <=%d atoms over %d atoms; each also as a one-cell text table (body, header, right-aligned column, centred column-0 default)", maxLen, len(c18Atoms))}, func(c *Chooser) {
 		var sb strings.Builder
 		nontrivial := false
 		for i := 0; i < maxLen; i++ {
@@ -308,12 +309,23 @@ func runC18(x *X) {
 
 		// clause layout_emit: the renderer's layout and emit passes agree: a one-cell table is a rectangle
 		// of exactly max(1,lines) content lines, mc+4 cells wide.
-		for variant := 0; variant < 2; variant++ {
+		// variants 2 and 3: the same body cell in a right-aligned column / under a centred column-0 default (the
+		// padding then goes in front of or around the text; the rectangle must be the same)
+		for variant := 0; variant < 4; variant++ {
 			tt := texttable.New()
-			if variant == 0 {
-				tt.AddRowItems(s)
-			} else {
+			switch variant {
+			case 1:
 				tt.AddHeaders(s)
+			default:
+				tt.AddRowItems(s)
+			}
+			switch variant {
+			case 2:
+				tt.Column(1).SetProperty(align.PropertyType, align.Right)
+				tags = append(append([]string{}, tags...), "right_aligned_column")
+			case 3:
+				tt.Column(0).SetProperty(align.PropertyType, align.Center)
+				tags = append(append([]string{}, tags...), "centred_by_column_0_default")
 			}
 			if _, err := tt.SetDecorationNamed(ascii); err != nil {
 				panic("harness: ascii-simple not registered: " + err.Error())
